@@ -66,6 +66,27 @@ def run(run):
                 ok_trk = all(is_call(c, "ne") and any(a[0] == "var" and a[1] == "stack_register" for a in c[2]) for c in cs) and len(cs) <= 1
         run.check("R1", "State::new|register-value-for-every-parameter", ok_reg, "every parameter register must get its parameter id as entry value", site)
         run.check("R1", "State::new|tracked-unless-stack-register", ok_trk, "every parameter register except the stack register must be tracked; conditions on the tracking: %s" % ([fmt(c) for c in trk_conds] if trk_conds else None), site)
+        # the entry state of a function is built from THAT function's calling convention
+        gf = F.fn("generate_fixpoint_computation", mod="analysis::function_signature")
+        gt = S.Sym(F).term(gf["body"])
+        news = [x for x in S.subterms(gt) if is_call(x, "new") and x[3].endswith("function_signature::state::State::new")]
+        run.floor("entry-state constructions", len(news), 1)
+        for i, x in enumerate(news):
+            cc = x[2][2] if len(x[2]) >= 3 else None
+            key = "generate_fixpoint_computation|entry-state-uses-the-function's-calling-convention|%d" % i
+            site2 = F.loc(gf["body"])
+            if cc is None:
+                run.undecided("R1", key, "State::new arguments changed", site2)
+                continue
+            per_fn = any(isinstance(y, tuple) and y and y[0] == "field" and y[2] == "calling_convention" for y in S.subterms(cc))
+            specific = any(is_call(y, "get_specific_calling_convention") for y in S.subterms(cc))
+            standard_only = any(is_call(y, "get_standard_calling_convention") for y in S.subterms(cc)) and not per_fn
+            if per_fn and specific:
+                run.holds("R1", key, "", site2)
+            elif standard_only:
+                run.violated("R1", key, "the entry state of every function is built from the project's STANDARD calling convention (%s) instead of the convention the function is annotated with: parameter registers that only the function's own convention has (e.g. R10 of the x86-64 syscall convention, ECX/EDX of __fastcall) are not tracked and never reported" % fmt(cc)[:80], site2)
+            else:
+                run.undecided("R1", key, "calling convention argument %s" % fmt(cc)[:100], site2)
         fn = F.fn("get_all_parameter_register", adt="CallingConvention")
         t = S.Sym(F).term(fn["body"])
         ints = any(isinstance(x, tuple) and x and x[0] == "field" and x[2] == "integer_parameter_register" for x in S.subterms(t))
